@@ -5785,10 +5785,11 @@ class Path(Shape, MutableSequence):
         else:
             s = args[0]
             if isinstance(s, Subpath):
-                self._segments.extend(s.segments(transformed=False))
+                # Each segment exists only once in each path, the new path gets its own.
+                self._segments.extend(map(copy, s.segments(transformed=False)))
                 Shape.__init__(self, s._path)
             elif isinstance(s, Shape):
-                self._segments.extend(s.segments(transformed=False))
+                self._segments.extend(map(copy, s.segments(transformed=False)))
             elif isinstance(s, str):
                 self._segments = list()
                 self.parse(s)
@@ -5810,11 +5811,7 @@ class Path(Shape, MutableSequence):
                 self.values["pathd_loaded"] = True
 
     def __copy__(self):
-        path = Path(self)
-        segs = path._segments
-        for i in range(0, len(segs)):
-            segs[i] = copy(segs[i])
-        return path
+        return Path(self)
 
     def __getitem__(self, index):
         return self._segments[index]
@@ -5932,6 +5929,8 @@ class Path(Shape, MutableSequence):
     def __add__(self, other):
         if isinstance(other, (str, Path, Subpath, Shape, PathSegment)):
             n = copy(self)
+            if isinstance(other, PathSegment):
+                other = copy(other)  # Linking it into the new path must not rewrite the operand.
             n += other
             return n
         return NotImplemented
@@ -5943,7 +5942,7 @@ class Path(Shape, MutableSequence):
             return path
         elif isinstance(other, PathSegment):
             path = copy(self)
-            path.insert(0, other)
+            path.insert(0, copy(other))
             return path
         else:
             return NotImplemented
@@ -7654,6 +7653,8 @@ class Subpath:
     def __add__(self, other):
         if isinstance(other, (str, Path, PathSegment)):
             n = copy(self)
+            if isinstance(other, PathSegment):
+                other = copy(other)  # Linking it into the new path must not rewrite the operand.
             n += other
             return n
         return NotImplemented
